@@ -79,6 +79,8 @@ fn reason_kind(r: &ErrorReason) -> &'static str {
         ErrorReason::Runtime(RuntimeError::UnknownFunction(_)) => "unknown-function",
         ErrorReason::Runtime(RuntimeError::InvalidType { .. }) => "invalid-type",
         ErrorReason::Runtime(RuntimeError::InvalidReturnType { .. }) => "invalid-return-type",
+        #[allow(unreachable_patterns)]
+        _ => "other",          // a variant the tree under test added
     }
 }
 
